@@ -299,7 +299,7 @@ def build_refmodel(family):
     for s in srcs:
         shutil.copy(s, odir / s.name)
     (odir / "dune-project").write_text("(lang dune 2.9)\n")
-    (odir / "dune").write_text(f"(executable\n (name drv_{family})\n (ocamlopt_flags (:standard -O3 -unsafe -inline 200))\n (flags (:standard -w -a)))\n")
+    (odir / "dune").write_text(f"(executable\n (name drv_{family})\n (libraries unix)\n (ocamlopt_flags (:standard -O3 -unsafe -inline 200))\n (flags (:standard -w -a)))\n")
     rc, out, err = sh(["dune", "build", "--profile", "release", f"./drv_{family}.exe"], cwd=odir, timeout=900)
     if rc != 0:
         raise RuntimeError(f"ocaml build failed for {family}:\n{out}{err}")
